@@ -180,6 +180,39 @@ func formatterGuard(c *Ctx, cd Cond, depth int) (ok bool, desc string) {
 				}
 			}
 		}
+		// slices.ContainsFunc / IndexFunc / strings.IndexFunc with a predicate of the module: the predicate is the test
+		if (strings.HasPrefix(name, "slices.ContainsFunc") || strings.HasPrefix(name, "slices.IndexFunc")) && len(call.Call.Args) == 2 && depth < 3 {
+			var pred *ssa.Function
+			switch x := call.Call.Args[1].(type) {
+			case *ssa.Function:
+				pred = x
+			case *ssa.MakeClosure:
+				pred, _ = x.Fn.(*ssa.Function)
+			}
+			if pred != nil && len(pred.Blocks) > 0 {
+				for _, b := range pred.Blocks {
+					if ifi, ok := b.Instrs[len(b.Instrs)-1].(*ssa.If); ok {
+						if ok2, d2 := formatterGuard(c, normCond(Cond{V: ifi.Cond, True: true}), depth+1); !ok2 {
+							return false, name + "(predicate): " + d2
+						}
+					}
+				}
+				for _, ret := range returnsOf(pred) {
+					for _, rv := range ret.Results {
+						if _, isC := rv.(*ssa.Const); isC {
+							continue
+						}
+						if _, isPhi := rv.(*ssa.Phi); isPhi {
+							continue
+						}
+						if ok2, d2 := formatterGuard(c, normCond(Cond{V: rv, True: true}), depth+1); !ok2 {
+							return false, name + "(predicate) returns " + d2
+						}
+					}
+				}
+				return true, name + "() over a presence/flag predicate"
+			}
+		}
 		if g := call.Call.StaticCallee(); g != nil && c.P.inModule(g) && len(g.Blocks) > 0 && depth < 3 {
 			// a helper predicate: every branch inside it and every returned value must be allowed atoms
 			for _, b := range g.Blocks {
